@@ -12,7 +12,9 @@ import (
 
 func (v *Muxer) ZZHandle(c net.Conn) { v.handle(c) }
 
-func (v *Muxer) ZZSetVhostFunc(f func(net.Conn) (net.Conn, map[string]string, error)) { v.vhostFunc = f }
+func (v *Muxer) ZZSetVhostFunc(f func(net.Conn) (net.Conn, map[string]string, error)) {
+	v.vhostFunc = f
+}
 
 func (v *Muxer) ZZRoutes() int {
 	v.registryRouter.mutex.RLock()
